@@ -534,7 +534,12 @@ func runGCProg(p *Plan, tape *simrt.Tape, opt RunOpt) *RunOut {
 // bucket refers into must be released within a bounded number of GC intervals
 // of simulated time, and after that the files must stop changing.
 func (d *Driver) gcProgBackground(p *Plan, target map[uint64]bool, oldFirst uint32, B int, imax uint64, nfix int, released func() []uint64, checkOldest bool) {
-	// index files no bucket refers into (before the collectors start)
+	// index files no bucket refers into. In the collectors-from-the-start class
+	// the flusher may roll the index over while this is computed, so the three
+	// reads are ordered to stay sound: listing first, then the current file
+	// number (only files below it), then the bucket table (a file below the
+	// current one that no bucket refers into now is never referred into again)
+	listedIdx := numberedFiles(fsOf().Files(), indexPath)
 	curIdx := uint64(d.St.Index().VerifCurrentFile())
 	busy := map[uint64]bool{}
 	for _, pos := range d.St.Index().VerifBuckets() {
@@ -544,8 +549,8 @@ func (d *Driver) gcProgBackground(p *Plan, target map[uint64]bool, oldFirst uint
 	}
 	var cand []uint64
 	if p.x("mode", 0) == 2 {
-		for f, data := range numberedFiles(fsOf().Files(), indexPath) {
-			if uint64(f) != curIdx && !busy[uint64(f)] && len(data) > 0 {
+		for f, data := range listedIdx {
+			if uint64(f) < curIdx && !busy[uint64(f)] && len(data) > 0 {
 				cand = append(cand, uint64(f))
 			}
 		}
